@@ -1,5 +1,7 @@
 SPECIFICATION SpecFam
 CONSTANTS
+  MINNODES = 0
+  MAXSTACK = 99
   BUDGET = 0
   FUEL = 4000
   MAXINT = 100000000
